@@ -430,3 +430,238 @@ impl Primary {
         }
     }
 }
+
+// ---------------------------------------------------------------- expressibility
+
+/// Is this tree one that rrss's grammar can express (so that rendering it is meaningful)?
+/// Used as a self-check of the generators.
+pub fn validate_expr(e: &Expr, min_level: u8) -> Result<(), String> {
+    match e {
+        Expr::Primary(p) => validate_primary(p),
+        Expr::Unary { operand, .. } => {
+            if !operand.is_unary_level() {
+                return Err("unary operator applied to a binary expression".into());
+            }
+            validate_expr(operand, 4)
+        }
+        Expr::Binary { op, lhs, rhs } => {
+            let l = op.level();
+            if l < min_level {
+                return Err(format!("operator {:?} below the level its position allows", op));
+            }
+            if rhs.is_empty() {
+                return Err("empty operand list".into());
+            }
+            // left operand: same level (left-assoc chain) or tighter
+            validate_expr(lhs, l)?;
+            if *op == BinOp::And && lhs.ends_in_call() {
+                return Err("left operand of `and` ends in a call".into());
+            }
+            let n = rhs.len();
+            for (i, r) in rhs.iter().enumerate() {
+                if i + 1 < n {
+                    if !r.is_unary_level() || r.ends_in_call() {
+                        return Err("non-last list element must be unary-level and must not end in a call".into());
+                    }
+                }
+                validate_expr(r, l + 1)?;
+            }
+            if let Expr::Unary { op: UnOp::Not, .. } = &rhs[0] {
+                if *op == BinOp::Eq {
+                    return Err("`is not x` spells NotEq".into());
+                }
+            }
+            Ok(())
+        }
+    }
+}
+
+pub fn validate_primary(p: &Primary) -> Result<(), String> {
+    match p {
+        Primary::Lit(Lit::Num(n)) => {
+            if *n < 0.0 || n.is_nan() || (*n == 0.0 && n.is_sign_negative()) {
+                Err("number literal must be non-negative".into())
+            } else {
+                Ok(())
+            }
+        }
+        Primary::Lit(Lit::Str(s)) => {
+            if s.contains('"') {
+                Err("string literal contains a quote".into())
+            } else {
+                Ok(())
+            }
+        }
+        Primary::Lit(_) | Primary::Ident(_) => Ok(()),
+        Primary::Subscript(a, i) => {
+            if matches!(**a, Primary::Call(..) | Primary::Pop(..)) {
+                return Err("subscript of a call / roll expression".into());
+            }
+            if let Primary::Subscript(_, inner) = &**a {
+                if inner.swallows_at() {
+                    return Err("inner subscript swallows the following `at`".into());
+                }
+            }
+            if matches!(**i, Primary::Subscript(..)) {
+                return Err("index must be a non-subscript primary".into());
+            }
+            validate_primary(a)?;
+            validate_primary(i)
+        }
+        Primary::Call(_, args) => {
+            if args.is_empty() {
+                return Err("call without arguments".into());
+            }
+            let n = args.len();
+            for (i, a) in args.iter().enumerate() {
+                if !a.is_unary_level() {
+                    return Err("call argument must be unary-level".into());
+                }
+                if i + 1 < n && a.ends_in_call() {
+                    return Err("non-last argument ends in a call".into());
+                }
+                validate_expr(a, 4)?;
+            }
+            Ok(())
+        }
+        Primary::Pop(p) => validate_primary(p),
+    }
+}
+
+pub fn validate_lhs(l: &Lhs) -> Result<(), String> {
+    match l {
+        Lhs::Ident(_) => Ok(()),
+        Lhs::Subscript(a, _) => {
+            if !matches!(a.leftmost(), Primary::Ident(_)) {
+                return Err("assignment target must be rooted at an identifier".into());
+            }
+            validate_primary(&l.as_primary())
+        }
+    }
+}
+
+fn validate_list(es: &[Expr]) -> Result<(), String> {
+    let n = es.len();
+    if n == 0 {
+        return Err("empty value list".into());
+    }
+    for (i, e) in es.iter().enumerate() {
+        if i + 1 < n && (!e.is_unary_level() || e.ends_in_call()) {
+            return Err("non-last value-list element must be unary-level and must not end in a call".into());
+        }
+        validate_expr(e, 0)?;
+    }
+    Ok(())
+}
+
+pub fn validate_block(b: &[Stmt], fn_body: bool) -> Result<(), String> {
+    for (i, s) in b.iter().enumerate() {
+        if fn_body && matches!(s, Stmt::If { els: Some(_), .. }) && i + 1 != b.len() {
+            return Err("if/else must be the last statement of a function body".into());
+        }
+        match s {
+            Stmt::Assign { dest, value, op } => {
+                validate_lhs(dest)?;
+                validate_list(value)?;
+                if let Some(o) = op {
+                    if !o.is_arith() {
+                        return Err("compound operator must be arithmetic".into());
+                    }
+                } else if value.len() > 1 && value[0].starts_with_minus() {
+                    return Err("`let x be -…` is a compound assignment".into());
+                }
+            }
+            Stmt::PoeticNum { dest, rhs } => {
+                validate_lhs(dest)?;
+                match rhs {
+                    PoeticRhs::Expr(e) => {
+                        if !e.starts_like_poetic_expression() {
+                            return Err("poetic expression must start with a literal or -number".into());
+                        }
+                        validate_expr(e, 0)?
+                    }
+                    PoeticRhs::Literal(el) => {
+                        if el.is_empty() {
+                            return Err("empty poetic literal".into());
+                        }
+                    }
+                }
+            }
+            Stmt::PoeticStr { dest, text } => {
+                validate_lhs(dest)?;
+                if text.contains('\n') {
+                    return Err("poetic string with a line break".into());
+                }
+            }
+            Stmt::If { cond, then, els } => {
+                validate_expr(cond, 0)?;
+                validate_block(then, false)?;
+                if let Some(e) = els {
+                    validate_block(e, false)?
+                }
+            }
+            Stmt::While { cond, body } | Stmt::Until { cond, body } => {
+                validate_expr(cond, 0)?;
+                validate_block(body, false)?
+            }
+            Stmt::Inc { amount, .. } | Stmt::Dec { amount, .. } => {
+                if *amount == 0 {
+                    return Err("build/knock by zero".into());
+                }
+            }
+            Stmt::Input { dest } => {
+                if let Some(d) = dest {
+                    validate_lhs(d)?
+                }
+            }
+            Stmt::Output { value } | Stmt::Return { value } | Stmt::Rounding { operand: value, .. } => validate_expr(value, 0)?,
+            Stmt::Mutation { operand, dest, param, .. } => {
+                validate_primary(operand)?;
+                match dest {
+                    Some(d) => validate_lhs(d)?,
+                    None => {
+                        if !matches!(operand, Primary::Ident(_)) {
+                            return Err("mutation without destination needs an identifier operand".into());
+                        }
+                    }
+                }
+                if let Some(p) = param {
+                    validate_expr(p, 0)?
+                }
+            }
+            Stmt::Continue | Stmt::Break => {}
+            Stmt::Push { array, value } => {
+                validate_primary(array)?;
+                if let Some(PushRhs::List(es)) = value {
+                    validate_list(es)?
+                }
+            }
+            Stmt::Pop { array, dest } => {
+                validate_primary(array)?;
+                if let Some(d) = dest {
+                    validate_lhs(d)?
+                }
+            }
+            Stmt::Function { params, body, .. } => {
+                if params.is_empty() {
+                    return Err("function without parameters".into());
+                }
+                validate_block(body, true)?
+            }
+            Stmt::Call { name, args } => validate_primary(&Primary::Call(name.clone(), args.clone()))?,
+        }
+    }
+    Ok(())
+}
+
+impl Program {
+    pub fn validate(&self) -> Result<(), String> {
+        for b in &self.blocks {
+            if b.is_empty() {
+                return Err("empty top-level block".into());
+            }
+            validate_block(b, false)?;
+        }
+        Ok(())
+    }
+}
